@@ -805,8 +805,9 @@ class Scores:
         # so we find the left-most root, the right-most root and then take the average.
         # The rates move in steps of one sample, so with billions of (easy) samples the
         # default tolerance is too coarse to resolve the crossing.
-        xtol = min(1e-10, 1e-3 / max(self.nb_all_pos, self.nb_all_neg))
-        xtol = max(xtol, 4 * np.finfo(float).eps)  # Attainable for rates up to 1.0
+        # A threshold moves by one score gap per sample, and gaps can differ by orders
+        # of magnitude (outliers), so we resolve the root to a tiny fraction of a sample.
+        xtol = min(1e-10, 1e-9 / max(self.nb_all_pos, self.nb_all_neg))
         left = self._find_root(f, 0.0, max_eer, find_first=True, xtol=xtol)
         right = self._find_root(f, 0.0, max_eer, find_first=False, xtol=xtol)
 
@@ -889,6 +890,8 @@ class Scores:
 
         while not np.abs(xa - xe) < xtol:
             xm = (xa + xe) / 2
+            if xm == xa or xm == xe:  # No float left in between, xtol not attainable
+                break
             if f(xm) < 0:
                 xa = xm
             elif f(xm) > 0:
